@@ -15,6 +15,7 @@ import (
 	"testing"
 	"time"
 
+	"github.com/gotid/god/lib/discov"
 	"github.com/gotid/god/lib/discov/internal"
 	"github.com/gotid/god/lib/logx"
 	"verif.local/vk"
@@ -392,4 +393,247 @@ func TestVerifC15TwoStreams(t *testing.T) {
 		c15Finish(m, w, kinds, 13)
 	}
 	c15FlushKinds(m, kinds)
+}
+
+// ---- a subscriber of a new key joins while a reload is waiting ----------------
+//
+// Gated schedule: the only watch goroutine (key 0) is parked in subscriber 0's
+// change listener in the middle of a response; the reload is started and observed
+// parked (it waits for that goroutine; the old done channel is closed); a
+// subscriber of key 1, which nobody listens to yet, is created and NewSubscriber
+// returns; more changes happen on both keys; the gate opens and the reload
+// completes. Afterwards registrations/expirations of both keys are delivered to
+// whatever watchers are alive. At quiescence both subscribers equal the model.
+// Synchronisation on the way (checked against registry.go): monitor reads
+// c.watchGroup / the new watch goroutine reads c.done without the lock, but both
+// happen before that goroutine's Done(), which happens before reload's Wait()
+// returns and reload writes the two fields - ordered, also for the race detector
+// (the family runs under -race as well).
+
+func (w *c15World) joinDuringReload(ne, gateAt int, excl bool, during func()) {
+	if len(w.live) != 1 || w.pending() < ne || len(w.subs) == 0 || len(w.subsOf(w.svcs[1])) != 0 {
+		w.inconclusive("join-during-reload scenario not set up (live=%d pending=%d)", len(w.live), w.pending())
+		return
+	}
+	w.tag = "join-during-reload"
+	w.ops = append(w.ops, c15Op{Op: "inflight-batch", N: ne, M: gateAt})
+	lw := w.live[0]
+	s0 := w.subs[0]
+	g := &c15Gate{entered: make(chan struct{}), release: make(chan struct{})}
+	released := false
+	release := func() {
+		if !released {
+			released = true
+			close(g.release)
+		}
+	}
+	defer release()
+	s0.mu.Lock()
+	g.at = s0.calls + int64(gateAt)
+	s0.gate = g
+	s0.mu.Unlock()
+	evs := w.etcd.events(w.delivered, w.delivered+ne)
+	if ok, _ := c15Send(lw, c15Response(evs, 0)); !ok {
+		w.inconclusive("watcher did not take the in-flight response")
+		return
+	}
+	select {
+	case <-g.entered:
+	case <-time.After(c15Watchdog):
+		w.inconclusive("listener gate not reached")
+		return
+	}
+	lw.cursor = w.delivered + ne
+	for _, ev := range evs {
+		w.applyDelivered(ev)
+	}
+	w.delivered += ne
+	w.nDelivered += ne
+	w.ops = append(w.ops, c15Op{Op: "reload-while-processing"})
+	nbR := w.etcd.watchCount()
+	done := make(chan struct{})
+	go func() {
+		internal.C15Reload(w.eps, w.etcd)
+		close(done)
+	}()
+	parked := vk.WaitUntil(c15Watchdog, func() bool {
+		for _, gr := range c15Goroutines() {
+			if strings.Contains(gr.text, "internal.C15Reload") {
+				return gr.state != "running" && gr.state != "runnable"
+			}
+		}
+		return false
+	})
+	if !parked {
+		w.inconclusive("reload goroutine did not park while the watch goroutine is held")
+		return
+	}
+	// the newcomer, on a key without listeners so far
+	svc := w.svcs[1]
+	w.ops = append(w.ops, c15Op{Op: "sub-during-reload", P: 1, X: excl})
+	var sub *discov.Subscriber
+	var err error
+	returned := vk.Within(c15Watchdog, func() {
+		var opts []discov.SubOption
+		if excl {
+			opts = append(opts, discov.Exclusive())
+		}
+		sub, err = discov.NewSubscriber(w.endpoints(), svc, opts...)
+	})
+	if !returned || err != nil {
+		w.wedged = !returned
+		w.inconclusive("NewSubscriber during a waiting reload: returned=%v err=%v", returned, err)
+		return
+	}
+	s1 := &c15Sub{id: len(w.subs), svc: svc, excl: excl, sub: sub, own: map[string]map[string]bool{}}
+	sub.AddListener(s1.listener)
+	groups := map[string][]string{}
+	nk := map[string]bool{}
+	for k, v := range w.etcd.snapshot(svc) {
+		groups[v] = append(groups[v], k)
+		nk[k] = true
+	}
+	for v, ks := range groups {
+		s1.mAdd(ks, v)
+	}
+	w.known[svc] = nk
+	w.subs = append(w.subs, s1)
+	w.nAttach++
+	w.nLate++
+	during() // changes nobody is told about before the reload snapshot
+	release()
+	select {
+	case <-done:
+	case <-time.After(c15Watchdog):
+		w.reloadBlocked("reload with a subscriber joining meanwhile")
+		return
+	}
+	if !w.quiesce() {
+		return
+	}
+	// alive watchers = those whose goroutine is parked on their channel now
+	w.live = nil
+	rev := c15BaseRev + int64(w.etcd.logLen())
+	for _, cand := range w.etcd.watchesFrom(nbR) {
+		if c15TrySend(cand, c15Response(nil, rev)) {
+			w.live = append(w.live, cand)
+		}
+	}
+	w.m.Count("joins_during_waiting_reload", 1)
+	w.m.Count("watchers_alive_after_join_during_reload", int64(len(w.live)))
+	if !w.quiesce() {
+		return
+	}
+	missed := w.pending()
+	for _, sv := range w.svcs {
+		w.syncSvc(sv)
+	}
+	w.delivered = w.etcd.logLen()
+	w.nMissed += missed
+	w.nReloads++
+	if missed > 0 {
+		w.nReloadsAfterMiss++
+	}
+	if !w.pump(w.delivered, 1) {
+		return
+	}
+	w.check("join-during-reload")
+}
+
+func c15JoinDuringReloadFamily(m *vk.M, n int) {
+	kinds := map[string]int64{}
+	for idx := 1; idx <= n; idx++ {
+		if !m.Only(idx) {
+			continue
+		}
+		r := m.Rand("joinreload", idx)
+		w := newC15World(m, idx, r, []string{"c15.joinA", "c15.joinB"})
+		if w.incon {
+			return
+		}
+		g := newC15Gen(w, r, false)
+		pick := func(p int) {
+			// put or delete on service p
+			var absent, present []int
+			for k := 1; k <= g.nKeys[p]; k++ {
+				if g.present[p][k] {
+					present = append(present, k)
+				} else {
+					absent = append(absent, k)
+				}
+			}
+			if len(absent) > 0 && (len(present) == 0 || r.Intn(3) > 0) {
+				k := absent[r.Intn(len(absent))]
+				w.exec(c15Op{Op: "put", P: p, K: k, V: g.pools[p][r.Intn(len(g.pools[p]))]})
+				g.present[p][k] = true
+			} else if len(present) > 0 {
+				k := present[r.Intn(len(present))]
+				w.exec(c15Op{Op: "del", P: p, K: k})
+				delete(g.present[p], k)
+			}
+		}
+		for i := r.Intn(3); i > 0; i-- {
+			pick(1) // key B may already have publishers
+		}
+		w.exec(c15Op{Op: "sub", P: 0})
+		for i := r.Intn(3); i > 0; i-- {
+			pick(0)
+		}
+		w.exec(c15Op{Op: "reload"})
+		if !w.stopped() {
+			ne := 1 + r.Intn(3)
+			for i := 0; i < ne; i++ {
+				pick(0)
+			}
+			ne = w.pending()
+			if ne == 0 {
+				pick(0)
+				ne = w.pending()
+			}
+			w.joinDuringReload(ne, 1+r.Intn(ne), idx%3 == 0, func() {
+				for i := r.Intn(3); i > 0; i-- {
+					pick(r.Intn(2))
+				}
+			})
+		}
+		// life goes on for both keys
+		for i := 0; i < 6 && !w.stopped(); i++ {
+			pick(i % 2)
+			if r.Intn(2) == 0 {
+				w.exec(c15Op{Op: "pump", M: r.Intn(3)})
+			}
+		}
+		if !w.stopped() {
+			w.exec(c15Op{Op: "pump"})
+		}
+		if !w.stopped() && r.Intn(2) == 0 {
+			w.exec(c15Op{Op: "reload"})
+		}
+		if w.incon {
+			return
+		}
+		wedged := w.wedged
+		c15Finish(m, w, kinds, 11)
+		if wedged {
+			break
+		}
+	}
+	c15FlushKinds(m, kinds)
+}
+
+func TestVerifC15JoinDuringReload(t *testing.T) {
+	logx.Disable()
+	m := vk.New(t, "C15", "a subscriber of a not yet listened key joins (NewSubscriber returns) while a reload waits for a watch goroutine parked mid-response; changes on both keys meanwhile; after the reload, changes of both keys are delivered to the watchers that are alive; "+c15Rule)
+	defer m.Done()
+	defer c15Wall(m, time.Now())
+	c15JoinDuringReloadFamily(m, vk.N(120, 3000))
+}
+
+// TestVerifC15RaceJoinDuringReload: the same gated family under the race detector.
+func TestVerifC15RaceJoinDuringReload(t *testing.T) {
+	logx.Disable()
+	m := vk.New(t, "C15", "join-during-reload family under the race detector; "+c15Rule)
+	defer m.Done()
+	defer c15Wall(m, time.Now())
+	c15JoinDuringReloadFamily(m, vk.N(40, 600))
 }
